@@ -14,8 +14,8 @@ CHECKS = {
     "C01": (
         "exploration", "engine",
         "stateless exhaustive enumeration of (grammar x context x trivia x modifier x input x start position) executions; relational oracle interpreter == generated module",
-        "Every expression kind in every nesting context (32 contexts that force 'inner construct commits, outer construct fails'), with stack operations, tags, all rule modifiers and trivia configurations, is run on every short input in both interpreters and in the modules generated from them; "
-        "the generated module must compile, be byte-identical on regeneration, and return exactly the interpreter's tree (names, spans, nesting, tags) or fail with the same furthest_pos. Rule names that collide with generated identifiers are included.",
+        "Every expression kind in every nesting context (49 contexts that force 'inner construct commits, outer construct fails', and contexts composed with contexts), with stack operations, tags, all rule modifiers and trivia configurations, is run on every short input in both interpreters and in the modules generated from them; "
+        "the generated module must compile, be byte-identical on regeneration, and return exactly the interpreter's tree (names, spans, nesting, tags) or fail with the same furthest_pos. Added families: every repetition bound incl. zero counts, NEWLINE, the skip idiom in eleven templates, explicitly named non-silent WHITESPACE/COMMENT, literals made of regex metacharacters, implicit rules that touch the stack, and rule names that collide with generated identifiers or that Enum reserves (systematic).",
         "Trusted: CPython exec, the tuple canonicalisation of Pairs. No reference model is needed (the property is relational). Not covered: larger grammars; bundled real grammars are compared the same way in C08.",
         "5/C01",
     ),
@@ -23,7 +23,7 @@ CHECKS = {
         "exploration", "engine",
         "stateless exhaustive enumeration of (grammar x optimizer configuration x input) executions, one forked child per configuration; relational oracle optimised == optimizer=None",
         "Grammars biased to what the passes pattern-match on (squashable choices incl. prefix-overlapping literals, (!X ~ ANY)* shapes, bounded repetitions, silent rules with choice and sequence bodies, explicit WHITESPACE/COMMENT references, a user rule SKIP, tagged groups, built-ins), "
-        "x 278 optimizer configurations (DEFAULT_OPTIMIZER, the pipeline once and twice, each pass alone, all pass sequences of length 2-3, all 120 permutations) x every short input; the eight main configurations are also compared through generate(). "
+        "x 278 optimizer configurations (DEFAULT_OPTIMIZER, the pipeline once and twice, each pass alone, all pass sequences of length 2-3, all 120 permutations) x every short input; the eight main configurations are also compared through generate(). The shared families (all repetition bounds, NEWLINE, skip idiom under every modifier and with case-insensitive stops, metacharacter literals) run under the main configurations. "
         "Same success/failure and same tree (incl. tags) as optimizer=None is required; constructing a parser must not raise.",
         "Trusted: process isolation by fork (the baseline child never builds an Optimizer before it has finished). The property's 'random subsets/permutations/repetitions' is replaced by this exhaustive bounded configuration set. Failure positions are not compared.",
         "5/C02",
@@ -32,15 +32,15 @@ CHECKS = {
         "model_checking", "engine",
         "stateless exhaustive enumeration of (grammar x input) executions of the unoptimised interpreter in lock-step with an executable reference PEG model",
         "Every well-formed expression up to n nodes over the core operators, as a normal and as a silent rule body, is run on every input up to length L in the unoptimised interpreter and compared (accept/reject and full tree) with the reference evaluator, "
-        "which is a persistent-state big-step transcription of pest's semantics validated on the pest-derived samples of the repository's own suite. Small grammars x short inputs exhaustively is the first half of the property's quantifier.",
+        "which is a persistent-state big-step transcription of pest's semantics validated on the pest-derived samples of the repository's own suite. Small grammars x short inputs exhaustively is the first half of the property's quantifier; added families reach what the size bound cannot: every repetition bound up to 3 in four contexts, NEWLINE on \\r/\\n inputs, the empty literal, metacharacter literals.",
         "Trusted: mc/refpeg.py (validated on 127 pinned pest-suite samples), the conservative printer, CPython. Not covered: grammars/inputs beyond the bound, the 'larger ones sampled' clause, recursion.",
         "5/C03",
     ),
     "C04": (
         "model_checking", "engine",
         "stateless exhaustive enumeration of (grammar x trivia configuration x modifier x input) executions in all four modes in lock-step with the reference PEG model",
-        "Start-rule bodies up to n nodes over literals and @ $ ! _ helper rules (three helper packs with modifier nesting depth 3), every start modifier, eight WHITESPACE/COMMENT configurations and every input over the letters plus the trivia symbols "
-        "(so trivia is leading, between, trailing, inside atomic spans and unterminated) are run in IU, GU, IO and GO and compared - spans, inner pairs, positions of non-silent trivia pairs - with the reference evaluator.",
+        "Start-rule bodies up to n nodes over literals and @ $ ! _ helper rules (five helper packs with modifier nesting depth 3-4), every start modifier, eleven WHITESPACE/COMMENT configurations (incl. a COMMENT that starts with a WHITESPACE character, one that calls a non-atomic rule, non-silent ones named explicitly) and every input over the letters plus the trivia symbols "
+        "(so trivia is leading, between, trailing, inside atomic spans and unterminated) are run in IU, GU, IO and GO and compared - spans, inner pairs, positions of non-silent trivia pairs - with the reference evaluator. Added: the skip idiom under every modifier, rules with their own atomicity called inside abandoned alternatives / predicates (atomic depth must be restored), contexts composed with contexts over the full terminal set.",
         "Trusted: mc/refpeg.py (skip placement, atomicity and pair visibility transcribed from pest's generator/ParserState; validated on the pinned pest-suite samples). Helper packs are fixed, not enumerated. Not covered: larger bodies, longer inputs.",
         "5/C04",
     ),
@@ -48,7 +48,7 @@ CHECKS = {
         "model_checking", "engine",
         "stateless exhaustive enumeration of stack-operation grammars x inputs in four modes in lock-step with the reference model (persistent stack), plus the ParserState BFS of C09 for the history half",
         "Template PRE ~ W[INNER ~ FAILER] ~ PEEK_ALL ~ EOI: the input suffix that lets the parse succeed is the stack content, so the stack after every abandoned alternative, optional, repetition iteration and predicate is observable through parse(). "
-        "INNER ranges over all expressions up to k nodes over the seven stack operations and four PEEK slices. Outcome and spans are compared with the reference evaluator in all four modes; any exception other than PestParsingError is a violation, also where the model is UNSPEC (empty-stack PEEK/POP).",
+        "INNER ranges over all expressions up to k nodes over the seven stack operations and four PEEK slices. Outcome and spans are compared with the reference evaluator in all four modes; any exception other than PestParsingError is a violation, also where the model is UNSPEC (empty-stack PEEK/POP). Added: repetitions whose operand succeeds without consuming input (DROP*, POP of an empty entry), and stack operations next to an implicit rule that pushes before it can fail.",
         "Trusted: mc/refpeg.py stack semantics (pest's stack_push/peek/pop/drop/match_peek_slice; restore-on-error for every abandoned attempt). Not covered: deeper INNER, implicit trivia in this family.",
         "5/C05",
     ),
@@ -72,14 +72,14 @@ CHECKS = {
         "exploration", "engine",
         "exhaustive enumeration of (rewrite site x rewrite kind) over the bundled grammars x a fixed finite corpus incl. all prefixes; metamorphic oracle rewritten == original",
         "Sites are read off the meta-grammar's own parse tree of each bundled .pest file (every untagged term, every rule-body / parenthesised / PUSH expression, every run of >= 3 sequence terms or alternatives); each site gets redundant parentheses, (e)|(e), ((e)~NEVER)|(e), (!(e)~NEVER)|(e), "
-        "extraction into a fresh silent rule, and every re-association split. The rewritten grammar must give the same outcome and tree as the original on every corpus input (examples, pest-derived test inputs, short valid/invalid inputs and all their prefixes) in the same mode.",
+        "extraction into a fresh silent rule, and every re-association split; combinations: a second rewrite applied to the result of a first, one kind at every literal at once, (thorough) two nearby sites. Two small grammars written for the check add the constructs no bundled grammar has (entry-replacing stack operations, case-insensitive stops, tags, bounded repetitions). The rewritten grammar must give the same outcome and tree as the original on every corpus input (examples, pest-derived test inputs, short valid/invalid inputs and all their prefixes) in the same mode.",
         "Trusted: the text surgery is always parenthesised; the NEVER literal is checked absent from the corpus. Single rewrites only (no pairs). quick runs the generated modes only for the six small grammars.",
         "5/C08",
     ),
     "C09": (
         "model_checking", "bfs",
         "explicit-state BFS over the real Stack / SnapshottingInt / ParserState objects in lock-step with a full-copy reference model",
-        "Every history of push/pop/clear/snapshot/restore/drop (and checkpoint/ok/restore over the four ParserState components) up to the depth bound is executed on the real objects; "
+        "Every history of push/pop/clear/snapshot/restore/drop (and checkpoint/ok/restore over the four ParserState components, with properly nested atomic_checkpoint blocks and pair hiding) up to the depth bound is executed on the real objects; "
         "after every transition contents, len, empty, peek and indexing are compared with a reference that stores full copies. States are canonicalised (values renamed, internals included) and counted. "
         "This is the property's own quantifier ('all operation sequences up to a length bound'), decided exhaustively.",
         "Trusted: the 40-line full-copy reference; CPython; value-renaming symmetry (the code never inspects values). Not covered: histories longer than the bound ('longer random ones').",
@@ -89,7 +89,7 @@ CHECKS = {
         "model_checking", "texts",
         "exhaustive enumeration of grammar texts (all token sequences up to K tokens, all rule headers, all layouts of accepted bodies) against pest's meta-grammar executed by the reference PEG model",
         "The oracle is tests/grammars/meta.pest itself, loaded by a bootstrap parser and executed by mc/refpeg.py ('pest's meta-grammar under pest's semantics'); the bootstrap is discharged by a fixpoint check (the meta-grammar accepts its own text and denotes what the bootstrap read) and by agreement on all bundled grammars. "
-        "Every text is accepted by from_grammar iff the oracle accepts it, and when both accept, names, modifiers, docs and the expression structure (precedence, prefix/postfix chains, bounds, tags, slices, decoded literals) must equal the structure read off the meta-grammar's parse tree.",
+        "Every text is accepted by from_grammar iff the oracle accepts it, and when both accept, names, modifiers, docs and the expression structure (precedence, prefix/postfix chains, bounds, tags, slices, decoded literals) must equal the structure read off the meta-grammar's parse tree - also after the same text has been loaded with the default optimizer in between.",
         "Trusted: refpeg's execution of meta.pest; the adapter from Expression objects to the harness AST (a refactor that renames fields gives HARNESS-ERROR, not VIOLATION). Not covered: bodies longer than K tokens except the ~250 hand-picked deeper texts and the bundled files.",
         "5/C10",
     ),
@@ -97,7 +97,7 @@ CHECKS = {
         "fault_enumeration", "texts",
         "exhaustive fault enumeration: every short string over the grammar alphabet, every short token soup, every truncation / single-character fault of every bundled grammar, every escape form; outcome-type oracle",
         "Each text is loaded with and without the default optimizer; the only admissible outcomes are a Parser or a PestGrammarError whose str() renders and whose line:column exists in the text. "
-        "Texts that can exhaust memory (astronomical repetition counts) run in a forked child with an address-space limit and a hard timeout.",
+        "Families: all short strings and token soups, every prefix / single-character deletion of the bundled grammars, escape forms, pumped units (openers, unterminated literals/comments, chains of postfix operators) repeated 25-400 times, numbers of up to 20,000 digits, odd characters (lone surrogates, NUL, Unicode separators, non-ASCII digits) at 35 places. Texts that can exhaust memory or time run in a forked child with an address-space limit and a hard timeout.",
         "Trusted: CPython. Termination is checked up to a 20 s watchdog. One open known finding (huge repetition counts unrolled by the optimizer).",
         "5/C11",
     ),
@@ -105,7 +105,7 @@ CHECKS = {
         "exploration", "enum",
         "complete enumeration of the code space U+0000..U+10FFFF for every expression of a family of character terminals in all four modes; integer-comparison oracle",
         "For ranges, single-character literals, ASCII_*/NEWLINE/ANY and the character classes the optimizer merges them into, every one of the 1,114,112 code points is parsed in the interpreter, the optimised interpreter and both generated modules and compared with membership computed from the definition; "
-        "Unicode property rules must agree across the four modes; every \\xHH and \\u{H..} escape value must denote exactly its code point. The input domain is finite and fully enumerated (exhaustive: true); the expression family is a fixed list.",
+        "Unicode property rules must agree across the four modes; every \\xHH and \\u{H..} escape value must denote exactly its code point. The input domain is finite and fully enumerated (exhaustive: true); the expression family is a fixed list, plus 116 choices of a range with an adjacent/overlapping literal or range and a case-folding history family (literals that Unicode folding would identify, built in one process in both orders) judged on code-point windows.",
         "Trusted: integer-comparison oracle; `regex` for the Unicode tables. CI literals judged on ASCII input only; property rules cross-mode only (both as the statement says).",
         "5/C12",
     ),
@@ -120,7 +120,7 @@ CHECKS = {
     "C14": (
         "exploration", "enum",
         "exhaustive enumeration of all texts over a 3-4 symbol alphabet (incl. newline) x all offsets x all spans against integer arithmetic on the text",
-        "Every text up to the length bound, every offset 0..len and every span is evaluated through Position/Span/Pair and compared with line/column computed by counting newlines; injectivity of offset->line/col is checked per text. "
+        "Every text up to the length bound, every offset 0..len and every span is evaluated through Position/Span/Pair and compared with line/column computed by counting newlines; injectivity of offset->line/col is checked per text; two-text histories (query A, drop it, build B of the same length - usually at A's address - and query B) for every pair of short texts. "
         "The domain is finite and fully enumerated, which is the exhaustive half of the property's quantifier.",
         "Trusted: str.count/rfind arithmetic oracle. Not covered: texts longer than the bound, the 'sampled long and non-ASCII texts' clause, line breaks other than \\n.",
         "5/C14",
@@ -128,7 +128,7 @@ CHECKS = {
     "C15": (
         "model_checking", "sched",
         "explicit-state search over all API histories (each replayed in a forked pristine process) + exhaustive exploration of thread schedules of real threads under a cooperative settrace scheduler (preemption-bounded)",
-        "Histories: every sequence of up to d operations from {create unoptimised / default-optimised / custom-pass parser for g1 or g2, generate a module, succeeding parse, failing parse} is replayed from scratch in its own process; all objects of the history and fresh ones created after it are probed and compared with single-parser processes. "
+        "Histories: every sequence of up to d operations from {create unoptimised / default-optimised / custom-pass parser for g1 or g2 (second pool: g3 with implicit WHITESPACE, a rule called SKIP, skip idioms and a tagged reference; g4 with skip idioms evaluated twice per parse), generate a module, succeeding parse, failing parse} is replayed from scratch in its own process; all objects of the history and fresh ones created after it are probed and compared with single-parser processes. "
         "Schedules: two threads sharing one parser (interpreter, generated, optimised with lazily compiled regex, lazily unrolled repetition) and parse || from_grammar: every schedule with at most k preemptions at line granularity; each thread must observe what it observes sequentially. The first schedule is run twice to prove determinism.",
         "Trusted: sys.settrace line events as scheduling points (switches inside one line and inside C calls are not enumerated); fork gives a pristine process. At most two threads and k preemptions. A free-running 8-thread pass is only a smoke test.",
         "5/C15",
@@ -152,7 +152,7 @@ CHECKS = {
     "C18": (
         "model_checking", "enum",
         "exhaustive enumeration of operator tables x well-formed token streams against (1) a transcription of pest's binding-power algorithm and (2) brute force over all trees satisfying the statement's constraints",
-        "All 688 tables (0-2 infix operators with both associativities, optional prefix and postfix, precedences 1-3) x all well-formed streams up to N tokens are run through a PrattParser subclass whose hooks build tuples; the tree must equal the reference algorithm's and consume the stream. "
+        "All 8,689 tables (0-2 infix operators with both associativities, 0-2 prefix and 0-2 postfix operators, precedences 0-2 with repetition or all distinct, rule names optionally shared between the prefix and the infix/postfix table, associativity given through LEFT_ASSOC/RIGHT_ASSOC) x all well-formed streams up to N tokens are run through a PrattParser subclass whose hooks build tuples; the tree must equal the reference algorithm's and consume the stream. "
         "Where the statement alone determines the tree (distinct precedences, no weak prefix after a stronger infix) a brute-force search over all trees confirms the reference (self-check) - so the oracle does not rest on one parsing algorithm.",
         "Trusted: the 40-line transcription of pest::pratt_parser and the constraint checker, cross-checked against each other on every decided case. Streams longer than N tokens are not covered.",
         "5/C18",
